@@ -144,9 +144,9 @@ CHECKS.update({
 
 CHECKS.update({
     "C17": dict(
-        text="for each of the 36 ASCII-compatible encoding_rs encodings, EVERY one- and two-byte high sequence (plus gb18030 four-byte boundaries) that decodes to one character and re-encodes to itself (about 98 000 characters in total) is packed into element/attribute names, attribute values, comment, PI, CDATA and text of documents transcoded from their UTF-8 original and labelled in the declaration; each is read from a slice and a buffered source (whole, pieces of 1,2,3,4,7), behind a line feed, for UTF-8 also behind a BOM, and via Reader::from_str: same event kinds, every payload decoded by the reader's decoder (decode and decode_into alike) and unescaped equals the original, the decoder reports the declared encoding, from_str stays UTF-8, no BOM in events; every rejected lead byte / (lead, trail) pair injected into attribute values and text (middle and end) yields an error, never replacement characters",
+        text="for each of the 36 ASCII-compatible encoding_rs encodings, EVERY one- and two-byte high sequence (plus gb18030 four-byte boundaries) that decodes to one character and re-encodes to itself (about 98 000 characters in total) is packed into element/attribute names, attribute values, comment, PI, CDATA and text of documents transcoded from their UTF-8 original and labelled in the declaration; each is read from a slice and a buffered source (whole, pieces of 1,2,3,4,7), behind a line feed, for UTF-8 also behind a BOM, and via Reader::from_str: same event kinds, every payload decoded by the reader's decoder (decode and decode_into alike) and unescaped equals the original, the decoder reports the declared encoding, from_str stays UTF-8, no BOM in events; every rejected lead byte / (lead, trail) pair injected into attribute values and text (middle and end) yields an error, never replacement characters; plus the documented encoding state machine (Implicit / Explicit / BomDetected / XmlDetected): every sequence of up to 4/6 tokens over six kinds of XML declarations, look-alike PIs, text, attribute, comment, with and without BOM, through from_str / slice / buffered sources, decoder().encoding() and payload decoding compared with the model after every event",
         note="`full` build only; the four non-ASCII-compatible encodings are documented as unsupported; three-byte EUC-JP sequences and most gb18030 four-byte sequences are outside the alphabet",
-        technique="exhaustive enumeration of the encodable alphabet of every supported encoding x source kinds on the real reader against the UTF-8 original (transcoding differential)",
+        technique="exhaustive enumeration of the encodable alphabet of every supported encoding x source kinds on the real reader against the UTF-8 original (transcoding differential); explicit enumeration of token sequences against the documented 4-state encoding machine",
     ),
 })
 
